@@ -215,7 +215,7 @@ func runBGVRefresh(c *eng.Ctx, cc caseCfg) {
 				c.Check(shares[i].MetaData.Equal(ct.MetaData), entry+".GenShare|share-metadata", nil)
 				// every third party sends its share over the wire
 				if i%3 == 1 {
-					if rt, ok := wireRefreshShare(c, shares[i]); ok {
+					if rt, wok := wireRefreshShare(c, shares[i]); wok {
 						shares[i] = rt
 					} else {
 						ok = false
